@@ -225,6 +225,9 @@ func runC14(t *testing.T, sci interface{}, keepLog bool) *hx.Outcome {
 			ex = &runnerEx{r: async.NewRunnerQ(async.WithQSize(sc.QSize), async.WithWaitGroup(wg), async.WithName("sim")), mode: sc.Kind, wg: wg}
 		}
 		ex.Run()
+		if sc.Kind != "mline" {
+			ex.Run() // starting twice is a no-op for the executors that guard Run with a Once (the multi-line executor does not)
+		}
 		started = true
 		var callers []*simrt.Task
 		for ci, calls := range sc.Callers {
@@ -379,6 +382,7 @@ func runC14(t *testing.T, sci interface{}, keepLog bool) *hx.Outcome {
 		}
 		stopInvoked = true
 		ex.Stop()
+		ex.Stop() // stopping twice is a no-op
 		stopReturned = true
 		ex.WaitStopped(s)
 		s.Logf("stopped")
